@@ -1,0 +1,27 @@
+// +build verif
+
+package cluster
+
+import (
+	"time"
+
+	"github.com/tikv/pd/server/core"
+)
+
+// Verification hooks for the store life-cycle checks (/verif, property C14).
+// They only export unexported entry points; nothing is re-implemented here.
+
+// VerifStoreFsmCheckStores runs one round of the background store check.
+func (c *RaftCluster) VerifStoreFsmCheckStores() { c.checkStores() }
+
+// VerifStoreFsmBuryStore calls buryStore.
+func (c *RaftCluster) VerifStoreFsmBuryStore(storeID uint64) error { return c.buryStore(storeID) }
+
+// VerifStoreFsmSetBackgroundJobInterval sets the period of runBackgroundJobs for clusters
+// started afterwards (the harness drives checkStores itself).
+func VerifStoreFsmSetBackgroundJobInterval(d time.Duration) { backgroundJobInterval = d }
+
+// VerifStoreFsmProcessRegionHeartbeat calls processRegionHeartbeat (region placements on stores).
+func (c *RaftCluster) VerifStoreFsmProcessRegionHeartbeat(region *core.RegionInfo) error {
+	return c.processRegionHeartbeat(region)
+}
